@@ -1,7 +1,7 @@
 """C06 — union/intersection/difference/complement are exact set operations (DESIGN.md §5 C06)."""
 import vcheck
 
-MODULES = ["BeffVerif.Props.C06", "BeffVerif.Props.C06Sem"]
+MODULES = ["BeffVerif.Props.C06", "BeffVerif.Props.C06Sem", "BeffVerif.Props.C06Total"]
 AUDIT = "BeffVerif/Audit/C06.lean"
 
 def proof_part(chk):
@@ -12,7 +12,7 @@ def proof_part(chk):
         "C06: atoms are propositional variables (the Boolean layer must commute with every reading of the atom tables)",
     ]
     chk.open_obligations += [
-        "bdd_ops_total_of_ordered (fuel adequacy for ordered diagrams) — not proved; every correspondence script is checked to return `some`",
+        "termination of the REAL recursion is read off the model (Props/C06Total: on ordered diagrams over a set U of atoms the nesting depth of union / intersect / complement is at most |U|+1, of diff |U|+2, and every script of operations over atoms runs to completion: script_total, toBdd_total); that the Rust code recurses as the model does is the correspondence",
         "the SemType / ProperSubtype layer is proved exact in Props/C06Sem.lean for the tags of the C05 fragment (boolean, number, string, null, optional, void/undefined, mapping, list); format / template literal subtypes (sub_vec_* with a non-trivial subtype relation), typed arrays, Map and Set are not modelled",
     ]
     return ok and aok, (out if not ok else txt), bad, banned
